@@ -27,7 +27,7 @@ PROTO_NOTE = NOTE_COMMON + ('The simzmq stand-in for pyzmq (harness/simzmq.py) a
 CHECKS['C01'] = dict(
    text='Theorem over the Gallina receiver machine (transliteration of ZMQReceiver.recv/recv_once/process_msg incl. the poller) for EVERY configuration '
         'and EVERY list of deliveries, poll answers, calls, clock values: a returned set never holds a synchronized frame published under another id '
-        '(invariant J lifted over all reachable states; C01_held_sets_one_id: also what a synchronized source HOLDS at any reachable state inside a call is of the id being assembled); the same for ephemeral sources, which keep an id of their own (C01_no_mixed_ids_ephemeral, C01_held_ephemeral_sets_one_id: frames of one '?' source inside a returned set share one id, publisher CLOSE and restarts included); the lossless synchronized JOIN of N sources fed in lock step (C01_join_lossless, C01_join_lossless_explicit: every set handed over is row k of the published matrix, complete); THE TEE-REJOIN CLAUSE composed (C01_rejoin_descends_from_one_frame: source -> (A, B) -> join, five machines and four channels, the glue of the two relays as hypotheses: every set the join hands over is made of what A and B computed from ONE source frame, under its id; non-vacuity by a concrete run of all five machines); refutation witness for the pinned code; the machine is compared item by item (outputs + state digest) '
+        '(invariant J lifted over all reachable states; C01_held_sets_one_id: also what a synchronized source HOLDS at any reachable state inside a call is of the id being assembled); the same for ephemeral sources, which keep an id of their own (C01_no_mixed_ids_ephemeral, C01_held_ephemeral_sets_one_id: frames of one ephemeral source inside a returned set share one id, publisher CLOSE and restarts included); the lossless synchronized JOIN of N sources fed in lock step (C01_join_lossless, C01_join_lossless_explicit: every set handed over is row k of the published matrix, complete); THE TEE-REJOIN CLAUSE composed (C01_rejoin_descends_from_one_frame: source -> (A, B) -> join, five machines and four channels, the glue of the two relays as hypotheses: every set the join hands over is made of what A and B computed from ONE source frame, under its id; non-vacuity by a concrete run of all five machines); refutation witness for the pinned code; the machine is compared item by item (outputs + state digest) '
         'with the real class under a scripted fake ZeroMQ on every run.',
    note=PROTO_NOTE, technique='Coq proof (inductive invariant over a reactive machine, all input sequences) + differential correspondence', ref='§5, §6 C01')
 CHECKS['C02'] = dict(
